@@ -86,6 +86,22 @@ def make(rng, entry, charset='E', nfaults=None, multi=None, alphabet=V.PLAIN, fa
             s_['st']['vals'][1] = bad
             s_['se']['vals'][1] = bad
             tfaults.append((-1, 'st02_element_error'))
+    if trailer_faults and rng.random() < 0.1:
+        # needless trailing separators on a set trailer (a reader-level segment error of the SE itself)
+        ses = [s_ for s_ in doc if s_['id'] == 'SE']
+        if ses:
+            rng.choice(ses)['trail'] = rng.choice([1, 2])
+            tfaults.append((-1, 'se_trailing_sep'))
+    if trailer_faults and rng.random() < 0.1:
+        # leading blanks / trailing separators on an envelope segment: reader-level errors of a segment that has no segment node
+        env = [s_ for s_ in doc[1:] if s_['id'] in ('GS', 'ST', 'SE', 'GE', 'IEA', 'ISA')]
+        if env:
+            s_ = rng.choice(env)
+            if rng.random() < 0.6 or s_['id'] == 'ISA':
+                s_['lead'] = rng.choice([1, 2])
+            else:
+                s_['trail'] = 1
+            tfaults.append((-1, 'envelope_seg_reader_error'))
     if trailer_faults and rng.random() < 0.12:
         # structural damage between the envelope segments: a stray segment outside any set, or a trailer that never comes
         kind = rng.choice(['junk_gap', 'junk_gap', 'drop_se', 'drop_ge'])
